@@ -47,12 +47,25 @@ _build_lock = threading.Lock()
 
 
 def _link_repo():
+    """harness/repo_link -> the tree under test.  The harness includes that tree's sources through the link, and cargo decides
+    staleness by modification times: pointing the link at ANOTHER tree (whose files may be older than the last build) would
+    leave a binary of the previous tree in place.  So the tree the last build was made from is recorded in the target
+    directory, and a different tree forces the harness crate to be rebuilt."""
     link = os.path.join(HARNESS, "repo_link")
-    if os.path.islink(link) and os.readlink(link) == REPO:
-        return
-    if os.path.islink(link) or os.path.exists(link):
-        os.remove(link)
-    os.symlink(REPO, link)
+    stamp = os.path.join(HARNESS, "target", ".built-from")
+    real = os.path.realpath(REPO)
+    prev = open(stamp).read().strip() if os.path.exists(stamp) else None
+    if not (os.path.islink(link) and os.readlink(link) == REPO):
+        if os.path.islink(link) or os.path.exists(link):
+            os.remove(link)
+        os.symlink(REPO, link)
+    if prev is not None and prev != real:
+        sh(["cargo", "clean", "--offline", "-p", "tcheran-verif-harness"], cwd=HARNESS, timeout=300)
+        for prof in ("opt",):
+            sh(["cargo", "clean", "--offline", "--profile", prof, "-p", "tcheran-verif-harness"], cwd=HARNESS, timeout=300)
+    os.makedirs(os.path.dirname(stamp), exist_ok=True)
+    with open(stamp, "w") as f:
+        f.write(real + "\n")
 
 
 def build_harness(profile="dev"):
